@@ -9,11 +9,10 @@ CONSTANTS
   NABad = {"none", "sig"}
   CUFields = {"ok"}
   NAFields = {"ok"}
-  Funds = {"ok", "spent", "utxofault"}
+  Funds = {"ok", "spent"}
   Signers = {"n1", "n2"}
   MaxMsgs = 4
-  Chain = TRUE
 VIEW MCView
-INVARIANTS TypeOK NodeHasChannel PolicyHasChannel RelayedAuthentic ZombieNotInGraph ClosedNotInGraph StashOnlyUpdates
-PROPERTIES ZombieOnlyByOwner OnlyAuthenticFresh NoRelayWithoutApply RelayOnlyApplied PolicyMonotone NodeMonotone ChannelsStay
+INVARIANTS TypeOK NodeHasChannel PolicyHasChannel RelayedAuthentic ZombieNotInGraph ClosedIsZombie StashOnlyUpdates
+PROPERTIES ZombieOnlyByOwner OnlyAuthenticFresh NoRelayWithoutApply PolicyMonotone NodeMonotone ChannelsStay
 CHECK_DEADLOCK FALSE
